@@ -3,7 +3,8 @@
 From Coq Require Import ZArith List Bool Zdiv.
 From Bignums Require Import BigZ.
 From GmVerif Require Import Ec.Num Ec.CurveSpec Ec.Z256 Ec.Z256Proofs Ec.Mont Ec.MontProofs
-  Ec.Jacobian Ec.JacobianProofs Ec.Booth Ec.BoothProofs Ec.ScalarMul Ec.ScalarMulProofs Ec.ScalarMulGenProofs Ec.MontBigProofs.
+  Ec.Jacobian Ec.JacobianProofs Ec.Booth Ec.BoothProofs Ec.ScalarMul Ec.ScalarMulProofs Ec.ScalarMulGenProofs Ec.MontBigProofs Ec.MontExpProofs
+  Ec.JacobianMoreProofs Ec.Point Ec.PointProofs.
 Import ListNotations.
 Local Open Scope Z_scope.
 
@@ -551,3 +552,110 @@ Proof.
   exact (fun P Q A => conj (point_dbl_hom P) (conj (point_add_hom P Q) (conj (point_neg_hom P) (point_add_affine_hom P A)))).
 Qed.
 Print Assumptions C13_big_point_ops_hom.
+
+(* ---- wave 5: helpers, modn wrappers, exponentiation, square root, shifts ---- *)
+Theorem C13_copy_conditional_spec : forall dst src move, z256_ok dst -> z256_ok src -> move = 0 \/ move = 1 ->
+  z256_copy_conditional dst src move = if move =? 1 then src else dst.
+Proof. exact copy_conditional_spec. Qed.
+Print Assumptions C13_copy_conditional_spec.
+
+Theorem C13_bytes_roundtrip : forall bs, length bs = 32%nat -> Forall byte_ok bs ->
+  z256_ok (z256_from_bytes bs) /\
+  z256_to_bytes (z256_from_bytes bs) = bs /\
+  val (z256_from_bytes bs) = fold_left (fun acc b => acc * 256 + b) bs 0.
+Proof. exact bytes_roundtrip. Qed.
+Print Assumptions C13_bytes_roundtrip.
+
+Theorem C13_rshift_spec : forall a nbits, z256_ok a -> 0 <= nbits ->
+  z256_ok (z256_rshift a nbits) /\ val (z256_rshift a nbits) = val a / 2^(nbits mod 64).
+Proof. exact rshift_spec. Qed.
+Print Assumptions C13_rshift_spec.
+
+(* limb code of modp_haf = value-level model (all operands); with C13_modp_haf_spec: exact halving *)
+Theorem C13_modp_haf_limbs : forall a, z256_ok a ->
+  z256_ok (z256_modp_haf a) /\ val (z256_modp_haf a) = vmod_haf ZOps KpZ (val a).
+Proof. exact modp_haf_limbs. Qed.
+Print Assumptions C13_modp_haf_limbs.
+
+Theorem C13_modm_neg_limbs_eq_value : forall m m' negm r2 a, z256_ok m -> z256_ok a ->
+  z256_ok (z256_modm_neg m a) /\
+  val (z256_modm_neg m a) = vmod_neg ZOps Z.ltb (Kof m m' negm r2) (val a).
+Proof. exact modm_neg_limb_eq. Qed.
+Print Assumptions C13_modm_neg_limbs_eq_value.
+
+(* the modn family (sm2_z256_modn_to_mont / from_mont / mul / sqr / exp / inv) *)
+Theorem C13_to_from_mont_n : forall a, 0 <= a < c_n ->
+  frm KnZ Rinv_n (vto_mont ZOps Z.ltb KnZ a) = a /\ 0 <= vto_mont ZOps Z.ltb KnZ a < c_n /\
+  vfrom_mont ZOps Z.ltb KnZ a = frm KnZ Rinv_n a.
+Proof. exact to_from_mont_n. Qed.
+Print Assumptions C13_to_from_mont_n.
+
+Theorem C13_modn_mul_spec : forall a b, 0 <= a < c_n -> 0 <= b < c_n ->
+  vmodn_mul ZOps Z.ltb KnZ a b = (a * b) mod c_n.
+Proof. exact modn_mul_spec. Qed.
+Print Assumptions C13_modn_mul_spec.
+
+Theorem C13_modn_sqr_spec : forall a, 0 <= a < c_n -> vmodn_sqr ZOps Z.ltb KnZ a = (a * a) mod c_n.
+Proof. exact modn_sqr_spec. Qed.
+Print Assumptions C13_modn_sqr_spec.
+
+Theorem C13_modn_inv_pow : forall a, 0 <= a < c_n -> vmodn_inv ZOps Z.ltb KnZ a = a ^ (c_n - 2) mod c_n.
+Proof. exact modn_inv_pow. Qed.
+Print Assumptions C13_modn_inv_pow.
+
+Theorem C13_modn_inv_partial :
+  (forall x, 0 < x < c_n -> x ^ (c_n - 1) mod c_n = 1) ->
+  forall a, 0 < a < c_n -> (vmodn_inv ZOps Z.ltb KnZ a * a) mod c_n = 1.
+Proof. exact modn_inv_partial. Qed.
+Print Assumptions C13_modn_inv_partial.
+
+(* mont_exp for an arbitrary exponent: the loop reads the 256 low bits of e *)
+Theorem C13_modp_mont_exp_spec : forall a e, 0 <= a < c_p -> 0 <= e ->
+  let r := vmont_exp ZOps Z.ltb KpZ a e in
+  0 <= r < c_p /\ frm KpZ Rinv_p r = (frm KpZ Rinv_p a) ^ (e mod 2^256) mod c_p.
+Proof. exact modp_mont_exp_spec. Qed.
+Print Assumptions C13_modp_mont_exp_spec.
+
+Theorem C13_modn_mont_exp_spec : forall a e, 0 <= a < c_n -> 0 <= e ->
+  let r := vmont_exp ZOps Z.ltb KnZ a e in
+  0 <= r < c_n /\ frm KnZ Rinv_n r = (frm KnZ Rinv_n a) ^ (e mod 2^256) mod c_n.
+Proof. exact modn_mont_exp_spec. Qed.
+Print Assumptions C13_modn_mont_exp_spec.
+
+Theorem C13_modn_exp_spec : forall a e, 0 <= a < c_n -> 0 <= e ->
+  vmodn_exp ZOps Z.ltb KnZ a e = a ^ (e mod 2^256) mod c_n.
+Proof. exact modn_exp_spec. Qed.
+Print Assumptions C13_modn_exp_spec.
+
+(* sm2_z256_modp_mont_sqrt: a returned root is a root; on squares a root is returned (prime + Fermat) *)
+Theorem C13_sqrt_sound : forall a r, okp a -> vmodp_mont_sqrt ZOps Z.ltb KpZ a = Some r ->
+  okp r /\ eqm c_p (decp r * decp r) (decp a).
+Proof. exact sqrt_sound. Qed.
+Print Assumptions C13_sqrt_sound.
+
+Theorem C13_sqrt_complete_partial :
+  Znumtheory.prime c_p -> (forall x, 0 < x < c_p -> x ^ (c_p - 1) mod c_p = 1) ->
+  forall a y, okp a -> 0 <= y < c_p -> decp a = (y * y) mod c_p ->
+  exists r, vmodp_mont_sqrt ZOps Z.ltb KpZ a = Some r /\ okp r /\
+            (decp r = y \/ (decp r + y) mod c_p = 0).
+Proof. exact sqrt_complete. Qed.
+Print Assumptions C13_sqrt_complete_partial.
+
+(* negation / subtraction of points *)
+Theorem C13_point_neg_represents : forall X Y Zc x y,
+  jrepr c_p Z okp decp (X, Y, Zc) x y -> jrepr c_p Z okp decp (point_neg Z FpZ (X, Y, Zc)) x (- y).
+Proof. exact point_neg_represents. Qed.
+Print Assumptions C13_point_neg_represents.
+
+Theorem C13_point_sub_is_add_neg : forall F (fo : fops F) A B,
+  point_sub F fo A B = point_add F fo A (point_neg F fo B) /\
+  forall Ba, point_sub_affine F fo A Ba = point_add_affine F fo A (fst Ba, f_neg fo (snd Ba)).
+Proof. exact (fun F fo A B => conj (sub_is_add_neg F fo A B) (sub_affine_is_add_neg F fo A)). Qed.
+Print Assumptions C13_point_sub_is_add_neg.
+
+(* get_xy / to_bytes on a normalised point *)
+Theorem C13_get_xy_normalised : forall x y, 0 <= x < c_p -> 0 <= y < c_p ->
+  point_get_xy Z FpZ (vto_mont ZOps Z.ltb KpZ x, vto_mont ZOps Z.ltb KpZ y, knegm KpZ) = (1, x, y) /\
+  point_to_uncompressed ZOps Z.ltb KpZ (vto_mont ZOps Z.ltb KpZ x, vto_mont ZOps Z.ltb KpZ y, knegm KpZ) = Some (x, y).
+Proof. exact get_xy_normalised. Qed.
+Print Assumptions C13_get_xy_normalised.
